@@ -13,6 +13,7 @@ from .common import always_before, enclosing_stmt, guard, need, node_of, stmts_m
 
 LSM = "happysimulator/components/storage/lsm_tree.py"
 MEMT = "happysimulator/components/storage/memtable.py"
+SST = "happysimulator/components/storage/sstable.py"
 BT = "happysimulator/components/storage/btree.py"
 KV = "happysimulator/components/datastore/kv_store.py"
 TXN = "happysimulator/components/storage/transaction_manager.py"
@@ -148,7 +149,14 @@ def rule_compaction(ctx: Ctx) -> None:
                + ("" if ok else " — an OLDER value (or a dropped tombstone) can overwrite a newer one"))
         src = [s for s in walk_stmts(fn.node.body) if isinstance(s, ast.AnnAssign) and path_of(s.target) == "merged_data" or (isinstance(s, ast.Assign) and path_of(s.targets[0]) == "merged_data" and isinstance(s.value, ast.DictComp))]
         ok_src = any(isinstance(getattr(s, "value", None), ast.DictComp) and path_of(s.value.generators[0].iter) == "sstables" for s in src)
-        ctx.ob("C14-2", "G4", fn, "source tables folded in selection order", ok_src, f"{q}: selected source tables are folded oldest→newest (later wins), before the target level is consulted")
+        # ... and `sstables` still is the strategy's selection, in the strategy's (= the level list's age) order: bound once, by the tuple
+        # returned from select_compaction, never re-sorted (an SSTable's `sequence` restarts with every fresh memtable: it is no age)
+        binds = [s for s in walk_scope(fn.node, include_root=False) if isinstance(s, (ast.Assign, ast.AnnAssign, ast.AugAssign, ast.For, ast.comprehension, ast.NamedExpr))
+                 and any(isinstance(y, ast.Name) and y.id == "sstables" and isinstance(y.ctx, ast.Store) for y in ast.walk(getattr(s, "target", None) or (s.targets[0] if isinstance(s, ast.Assign) else s)))]
+        sel = [s for s in binds if isinstance(s, ast.Assign) and isinstance(s.value, ast.Call) and (path_of(s.value.func) or "").endswith(".select_compaction")]
+        mut = [c for c in calls_in(fn.node) if isinstance(c.func, ast.Attribute) and path_of(c.func.value) == "sstables" and c.func.attr in ("sort", "reverse", "insert", "append", "extend", "pop", "remove")]
+        ok_src = ok_src and len(binds) == 1 and len(sel) == 1 and not mut
+        ctx.ob("C14-2", "G4", fn, "source tables folded in selection order", ok_src, f"{q}: selected source tables are folded oldest→newest (later wins) in the order the strategy selected them — not re-bound, re-sorted or edited — before the target level is consulted")
         # tombstones dropped only into the deepest level
         drops = [s for s in walk_stmts(fn.node.body) if isinstance(s, ast.Assign) and path_of(s.targets[0]) == "merged_data" and "is not _TOMBSTONE" in unparse(s.value)]
         okd = len(drops) == 1 and ff.holds_at(node_of(ff.cfg, drops[0]), Fact("eq", "self._max_levels - 1", "target_level")) or (len(drops) == 1 and ff.holds_at(node_of(ff.cfg, drops[0]), Fact("eq", "target_level", "self._max_levels - 1")))
@@ -326,7 +334,19 @@ def rule_memtable_apply(ctx: Ctx) -> None:
                               "Memtable.put applies the write before its latency suspends: a flush that swaps the memtable during the latency then carries the entry with it (written afterwards it would land in an already flushed, discarded memtable)")
 
 
+def rule_bloom_dependency(ctx: Ctx) -> None:
+    """C14-1 (dependency): SSTable.get consults its Bloom filter first and skips the table on False — sound only while the filter has no
+    false negatives."""
+    from .c20 import bloom_no_false_negatives
+
+    bloom_no_false_negatives(ctx, "C14-1")
+    sg = ctx.prog.func(SST, "SSTable.get")
+    uses = [c for c in calls_in(sg.node) if isinstance(c.func, ast.Attribute) and c.func.attr in ("contains", "__contains__", "might_contain") and "bloom" in unparse(c.func.value).lower()]
+    need(uses or any("bloom" in unparse(x).lower() for x in ast.walk(sg.node) if isinstance(x, ast.Compare)), "C14-1: SSTable.get no longer consults a Bloom filter (dependency clause is moot)")
+
+
 def run(ctx: Ctx) -> None:
+    ctx.guarded(rule_bloom_dependency)
     ctx.guarded(rule_memtable_apply)
     ctx.guarded(rule_read_paths)
     ctx.guarded(rule_flush_and_iteration)
@@ -336,6 +356,7 @@ def run(ctx: Ctx) -> None:
 
 
 MUTANTS = [
+    ("compaction-resorts-selection-by-sequence", LSM, "        # Merge all selected SSTables\n        # Process from oldest to newest so newer values win\n", "        # Merge all selected SSTables\n        sstables = sorted(sstables, key=lambda sst: sst.sequence)\n", "C14-2"),
     ("memtable-put-applies-after-latency", MEMT, "        self._data[key] = value\n        self._total_writes += 1\n        self._total_bytes_written += 64  # estimate\n        yield self._write_latency\n", "        self._total_writes += 1\n        self._total_bytes_written += 64  # estimate\n        yield self._write_latency\n        self._data[key] = value\n", "C14-3"),
     ("before-image-skipped-for-new-keys", TXN, "            before_images[key] = self._manager._store.get_sync(key)", "            if self._manager._store.get_sync(key) is not None:\n                before_images[key] = self._manager._store.get_sync(key)", "C14-6"),
     ("btree-post-split-routes-left", BT, "            if key >= node.keys[idx]:\n                idx += 1", "            idx = bisect.bisect_left(node.keys, key)", "C14-8"),
